@@ -249,7 +249,7 @@ fn replay(ctx: &Ctx, path: &str, rep: &mut Report, m: &mut M) {
 
 pub fn run(ctx: &Ctx) {
     let mut rep = Report::new("C01", &ctx.tier, ctx.seed);
-    rep.rule = "every message length 0..=600 once per backend and purpose; every sealing entry point (seal / encrypt / encrypt_with_aad / sign / sign_with_aad) on all six backends, through V::nonce(): payload lengths at every AES/ChaCha block boundary, footers (empty, JSON, '.', NUL, 33 random bytes), assertions (empty / non-empty where supported), keys from random(), From<[u8;32]> and parsed bytes incl. boundary scalars; RustCrypto backends under a scripted getrandom so that model and implementation must be bit-equal; a case is non-trivial when the token was produced by the library's own nonce path and round-tripped; distinct = (backend, purpose, length class, footer class, assertion class, key source, entry point)".into();
+    rep.rule = "every message length 0..=600, every footer length and every assertion length 0..=600, and lengths around the powers of two up to 2^18, once per backend and purpose; every sealing entry point (seal / encrypt / encrypt_with_aad / sign / sign_with_aad) on all six backends, through V::nonce(): payload lengths at every AES/ChaCha block boundary, footers (empty, JSON, '.', NUL, 33 random bytes), assertions (empty / non-empty where supported), keys from random(), From<[u8;32]> and parsed bytes incl. boundary scalars; RustCrypto backends under a scripted getrandom so that model and implementation must be bit-equal; a case is non-trivial when the token was produced by the library's own nonce path and round-tripped; distinct = (backend, purpose, length class, footer class, assertion class, key source, entry point)".into();
     let mut m = M::new(&ctx.model);
     if let Some(p) = &ctx.replay {
         replay(ctx, p, &mut rep, &mut m);
@@ -354,6 +354,32 @@ pub fn run(ctx: &Ctx) {
                 run_public(b, &pc, &mut m, &mut rep, false);
                 let lc = LCase { key: lk.clone(), key_src: "parsed", m: msg, f: b"footer-10b".to_vec(), a: a.clone(), via: SealVia::Seal, rng_seed: g.next(), rng_fixed: None };
                 run_local(b, &lc, &mut m, &mut rep, false);
+                if rep.violations.len() >= 20 {
+                    break;
+                }
+            }
+            // large messages around powers of two (a size threshold above which another code path is taken)
+            for &len in &[1023usize, 1024, 1025, 4095, 4096, 4097, 16384, 65535, 65536, 65537, 262_144, 300_001] {
+                let msg = content(&mut g, len);
+                let pc = PCase { sk: kp.sk.clone(), pk: kp.pk.clone(), key_src: kp.source, m: msg.clone(), f: b"footer-10b".to_vec(), a: a.clone(), via: SealVia::Seal };
+                run_public(b, &pc, &mut m, &mut rep, false);
+                let lc = LCase { key: lk.clone(), key_src: "parsed", m: msg, f: b"footer-10b".to_vec(), a: a.clone(), via: SealVia::Seal, rng_seed: g.next(), rng_fixed: None };
+                run_local(b, &lc, &mut m, &mut rep, false);
+            }
+            // the same sweep over the footer length and (where supported) the assertion length, 5-byte message
+            let fstep = if b.name == "v1" && !thorough { 7 } else { 1 };
+            for len in (0..=600usize).step_by(fstep).chain([1024usize, 4096, 4097, 65536, 65537]) {
+                let ft = content(&mut g, len);
+                let pc = PCase { sk: kp.sk.clone(), pk: kp.pk.clone(), key_src: kp.source, m: b"five!".to_vec(), f: ft.clone(), a: a.clone(), via: SealVia::Seal };
+                run_public(b, &pc, &mut m, &mut rep, false);
+                let lc = LCase { key: lk.clone(), key_src: "parsed", m: b"five!".to_vec(), f: ft.clone(), a: a.clone(), via: SealVia::Seal, rng_seed: g.next(), rng_fixed: None };
+                run_local(b, &lc, &mut m, &mut rep, false);
+                if b.aad {
+                    let pc = PCase { sk: kp.sk.clone(), pk: kp.pk.clone(), key_src: kp.source, m: b"five!".to_vec(), f: b"f".to_vec(), a: ft.clone(), via: SealVia::Seal };
+                    run_public(b, &pc, &mut m, &mut rep, false);
+                    let lc = LCase { key: lk.clone(), key_src: "parsed", m: b"five!".to_vec(), f: b"f".to_vec(), a: ft, via: SealVia::Seal, rng_seed: g.next(), rng_fixed: None };
+                    run_local(b, &lc, &mut m, &mut rep, false);
+                }
                 if rep.violations.len() >= 20 {
                     break;
                 }
